@@ -1,3 +1,158 @@
 import Srctools.Wire
-/-! stub driver (echo) — replaced when the property's model exists. -/
-def main : IO Unit := Wire.main fun j => pure j
+import Srctools.Model.C14
+import Srctools.Gen.Dmx
+import Srctools.Gen.Tok
+/-! Driver for the DMX model (C14).
+requests (byte strings and texts are arrays of numbers):
+  {"op":"tables"}                                    → the extracted tables that matter
+  {"op":"codes"}                                     → [[type, arr, code, decodedType|-1, decodedArr]…]
+  {"op":"encode","v":n,"uni":b,"g":G}                → {"bytes":[…]} | {"err":[id,arg]}
+  {"op":"decode","v":n,"uni":b,"bytes":[…]}          → {"g":G} | {"err":[id,arg]}
+  {"op":"kv2","flat":b,"cull":b,"g":G2}              → {"text":[…]} | {"err":…}
+  {"op":"kv2parse","text":[cp…],"fold":[[cp,[cp…]]…]}→ {"g":G2'} | {"err":…}
+  {"op":"kv1","t":K,"fold":[[[cp…],[cp…]]…]}         → {"e":E,"back":K}
+G  = {"elems":[{"type":[…],"name":[…],"uuid":[16],"attrs":[{"name":[…],"t":0..13,"arr":b,"vals":[V…]}]}]}
+V  = ["n"] | ["s",[uuid text]] | ["i",idx] | ["f",[ints]] | ["t",[bytes]] | ["b",[bytes]]
+-/
+open Lean C14
+
+def T := Gen.Dmx.tables
+
+def bytesOf (j : Json) : Except String Bytes := do
+  let l ← Wire.natList j
+  pure (l.map UInt8.ofNat)
+
+def jsonOfBytes (b : Bytes) : Json := Wire.ofNatList (b.map UInt8.toNat)
+
+def valOf (j : Json) : Except String Val := do
+  let a ← j.getArr?
+  let tag ← (a[0]!).getStr?
+  match tag with
+  | "n" => pure (.ref .null)
+  | "s" => pure (.ref (.stub (← bytesOf a[1]!)))
+  | "i" => pure (.ref (.idx (← (a[1]!).getNat?)))
+  | "f" => pure (.fixed (← Wire.intList a[1]!))
+  | "t" => pure (.str (← bytesOf a[1]!))
+  | "b" => pure (.bin (← bytesOf a[1]!))
+  | _ => throw s!"bad value tag {tag}"
+
+def jsonOfVal : Val → Json
+  | .ref .null => Json.arr #[Json.str "n"]
+  | .ref (.stub u) => Json.arr #[Json.str "s", jsonOfBytes u]
+  | .ref (.idx i) => Json.arr #[Json.str "i", Json.num (JsonNumber.fromNat i)]
+  | .fixed xs => Json.arr #[Json.str "f", Wire.ofIntList xs]
+  | .str s => Json.arr #[Json.str "t", jsonOfBytes s]
+  | .bin b => Json.arr #[Json.str "b", jsonOfBytes b]
+
+def attrOf (j : Json) : Except String Attr := do
+  let name ← bytesOf (← j.getObjVal? "name")
+  let tn ← j.getObjValAs? Nat "t"
+  let some t := VT.ofNat? tn | throw "bad type number"
+  let arr ← j.getObjValAs? Bool "arr"
+  let vs ← (← j.getObjVal? "vals").getArr?
+  let vals ← vs.toList.mapM valOf
+  pure { name, type := t, isArray := arr, vals }
+
+def jsonOfAttr (a : Attr) : Json :=
+  Json.mkObj [("name", jsonOfBytes a.name), ("t", Json.num (JsonNumber.fromNat a.type.toNat)),
+    ("arr", Json.bool a.isArray), ("vals", Json.arr (a.vals.map jsonOfVal).toArray)]
+
+def graphOf (j : Json) : Except String Graph := do
+  let es ← (← j.getObjVal? "elems").getArr?
+  let elems ← es.toList.mapM fun e => do
+    let type ← bytesOf (← e.getObjVal? "type")
+    let name ← bytesOf (← e.getObjVal? "name")
+    let uuid ← bytesOf (← e.getObjVal? "uuid")
+    let as ← (← e.getObjVal? "attrs").getArr?
+    let attrs ← as.toList.mapM attrOf
+    pure ({ type, name, uuid, attrs } : Elem)
+  pure { elems }
+
+def jsonOfGraph (g : Graph) : Json :=
+  Json.mkObj [("elems", Json.arr (g.elems.map fun e =>
+    Json.mkObj [("type", jsonOfBytes e.type), ("name", jsonOfBytes e.name), ("uuid", jsonOfBytes e.uuid),
+      ("attrs", Json.arr (e.attrs.map jsonOfAttr).toArray)]).toArray)]
+
+def jsonOfErr (e : Err) : Json :=
+  Json.mkObj [("err", Json.arr #[Json.num (JsonNumber.fromNat e.code.1), Json.num (JsonNumber.fromInt e.code.2)])]
+
+/-! KV1 trees: K = ["l",[name],[value]] | ["b",null|[name],[K…]] ; E = [type 0/1/2,[name],[[k,v]…],null|[E…]] -/
+partial def kvOf (j : Json) : Except String KV := do
+  let a ← j.getArr?
+  let tag ← (a[0]!).getStr?
+  if tag == "l" then
+    pure (.leaf (← Wire.strOfCodes a[1]!) (← Wire.strOfCodes a[2]!))
+  else
+    let n ← (if (a[1]!).isNull then pure none else do pure (some (← Wire.strOfCodes a[1]!)))
+    let cs ← (← (a[2]!).getArr?).toList.mapM kvOf
+    pure (.block n cs)
+
+partial def jsonOfKv : KV → Json
+  | .leaf n v => Json.arr #[Json.str "l", Wire.codesOfStr n, Wire.codesOfStr v]
+  | .block n cs => Json.arr #[Json.str "b", (match n with | none => Json.null | some s => Wire.codesOfStr s),
+      Json.arr (cs.map jsonOfKv).toArray]
+
+partial def jsonOfETree : ETree → Json
+  | .mk ty n attrs sub =>
+    Json.arr #[Json.num (JsonNumber.fromNat (match ty with | .leafT => 0 | .blockT => 1 | .rootT => 2)),
+      Wire.codesOfStr n,
+      Json.arr (attrs.map fun p => Json.arr #[Wire.codesOfStr p.1, Wire.codesOfStr p.2]).toArray,
+      (match sub with | none => Json.null | some l => Json.arr (l.map jsonOfETree).toArray)]
+
+/-- casefold given as a finite table on whole strings (every name of the request is listed). -/
+def strFoldOf (j : Json) : Except String (Str → Str) := do
+  let a ← j.getArr?
+  let pairs ← a.toList.mapM fun p => do
+    let q ← p.getArr?
+    pure ((← Wire.strOfCodes q[0]!), (← Wire.strOfCodes q[1]!))
+  pure fun s => match pairs.find? (·.1 == s) with
+    | some p => p.2
+    | none => s
+
+def charFoldOf (j : Json) : Except String (Char → List Char) := do
+  let a ← j.getArr?
+  let pairs ← a.toList.mapM fun p => do
+    let q ← p.getArr?
+    let k ← (q[0]!).getNat?
+    let v ← Wire.strOfCodes (q[1]!)
+    pure (Char.ofNat k, v)
+  pure fun c => match pairs.find? (·.1 == c) with
+    | some p => p.2
+    | none => [c]
+
+def handle (j : Json) : Except String Json := do
+  let op ← j.getObjValAs? String "op"
+  match op with
+  | "tables" =>
+    pure (Json.mkObj [
+      ("arrayOffset", Json.num (JsonNumber.fromNat T.arrayOffset)),
+      ("cmp", Json.str (match T.decodeCmp with | .ge => "ge" | .gt => "gt")),
+      ("stubWrite", Json.str (match T.stubWrite with | .none => "none" | .uuidText => "uuidText")),
+      ("codesOK", Json.bool (codesOK T)), ("layoutOK", Json.bool (layoutOK T)), ("sizesOK", Json.bool (sizesOK T))])
+  | "codes" =>
+    pure (Json.arr (VT.all.flatMap fun t => [false, true].map fun arr =>
+      let c := encodeType T t arr
+      let d := decodeType T c
+      Json.arr #[Json.num (JsonNumber.fromNat t.toNat), Json.bool arr, Json.num (JsonNumber.fromNat c),
+        (match d with | some (t', _) => Json.num (JsonNumber.fromNat t'.toNat) | none => Json.num (JsonNumber.fromInt (-1))),
+        Json.bool (match d with | some (_, a) => a | none => false)]).toArray)
+  | "encode" =>
+    let c : Cfg := { v := ← j.getObjValAs? Nat "v", uni := ← j.getObjValAs? Bool "uni" }
+    let g ← graphOf (← j.getObjVal? "g")
+    match exportError c g with
+    | some e => pure (jsonOfErr e)
+    | none => pure (Json.mkObj [("bytes", jsonOfBytes (encodeBin T c g)), ("ok", Json.bool (graphOK T c g))])
+  | "decode" =>
+    let c : Cfg := { v := ← j.getObjValAs? Nat "v", uni := ← j.getObjValAs? Bool "uni" }
+    let bs ← bytesOf (← j.getObjVal? "bytes")
+    match decodeBin T c bs with
+    | .error e => pure (jsonOfErr e)
+    | .ok g => pure (Json.mkObj [("g", jsonOfGraph g)])
+  | "kv1" =>
+    let t ← kvOf (← j.getObjVal? "t")
+    let f ← strFoldOf (← j.getObjVal? "fold")
+    let e := fromKv1 f t
+    pure (Json.mkObj [("e", jsonOfETree e), ("back", jsonOfKv (toKv1 e)), ("ok", Json.bool t.ok)])
+  | _ => throw s!"unknown op {op}"
+
+def main : IO Unit := Wire.main handle
